@@ -31,8 +31,10 @@ def main():
     m = {
         'version': 1,
         'setup_cmd': 'mkdir -p build evidence && python3 -m vfx.selftest',
-        'hooks': {'guard': 'FIXEDMATH_VERIF', 'enable': 'none needed: contracts are attached to the C extracted from the unmodified headers; FIXEDMATH_VERIF is reserved and unused',
-                  'baseline_off_cmd': 'ctest --test-dir /repo/_build -j8 --timeout 900', 'source_commits': [], 'add_only': True},
+        'hooks': {'guard': 'FIXEDMATH_VERIF_PORTABLE_MULTIPLY',
+                  'enable': 'contracts are attached to the C extracted from the unmodified headers; the only hook is -DFIXEDMATH_VERIF_PORTABLE_MULTIPLY, passed to clang for the `portable` configuration of C02 so that the non-GNU fall-back branch of detail::checked_multiply is compiled and can be verified; with the macro undefined the preprocessed source is unchanged',
+                  'baseline_off_cmd': 'ctest --test-dir /repo/_build -j8 --timeout 900', 'source_commits': ['3fd7483'],
+                  'add_only': False},
         'engines': [{'name': 'vfx', 'path': 'vfx/', 'serves_properties': [c['property_id'] for c in checks],
                      'kind_free_text': 'clang AST -> C extraction + CBMC code contracts (goto-instrument --dfcc) with a SAT/SMT portfolio; native replay of counterexamples against the real headers'}],
         'checks': checks,
